@@ -128,6 +128,10 @@ pub enum Op {
     /// reach `Prepared` that is still undecided
     TryCommit(u8),
     ClientAbort(u8),
+    /// a vote about transaction `sel` that names a shard which is NOT one of its participants
+    /// (a misrouted or misconfigured peer; cluster.rs hands `msg.shard_id` to record_vote
+    /// unchecked): it must never stand in for a participant's vote
+    StrayVote { sel: u8, yes: bool },
 }
 
 #[derive(Clone, Debug, Serialize, Deserialize)]
@@ -201,6 +205,7 @@ fn op_strategy() -> impl Strategy<Value = Op> {
         3 => (0u8..3).prop_map(Op::TryCommit),
         5 => Just(Op::TryCommit(3)),
         1 => (0u8..3).prop_map(Op::ClientAbort),
+        1 => (0u8..3, prop::bool::weighted(0.85)).prop_map(|(sel, yes)| Op::StrayVote { sel, yes }),
     ]
 }
 
